@@ -26,6 +26,12 @@ CERT_DEFECTS = {
     "untrusted-root": None,
     "leaf-expired": {"leaf": {"not_before": -30 * DAY, "not_after": -DAY}},
     "leaf-not-yet-valid": {"leaf": {"not_before": DAY, "not_after": 30 * DAY}},
+    # outside the validity period by an hour / by a second only
+    "leaf-expired-1h": {"leaf": {"not_before": -30 * DAY, "not_after": -3600}},
+    "leaf-expired-1s": {"leaf": {"not_before": -30 * DAY, "not_after": -1}},
+    "leaf-not-yet-valid-1h": {"leaf": {"not_before": 3600, "not_after": 30 * DAY}},
+    "enc-expired-1h": {"enc": {"not_before": -30 * DAY, "not_after": -3600}},
+    "ca-expired-1h": {"ca0": {"not_before": -30 * DAY, "not_after": -3600}},
     "ca-expired": {"ca0": {"not_before": -30 * DAY, "not_after": -DAY}},
     "root-expired": {"root": {"not_before": -300 * DAY, "not_after": -DAY}},
     "issuer-no-basic-constraints": {"ca0": {"ca": None}},
